@@ -58,6 +58,7 @@ structure Fut where
   spurUsed : Bool := false         -- its one modelled spurious return has happened
   wakers : Nat := 0                -- live references to the `block_on`'s waker
   rel : VV := VV.zero              -- release clock of the notifications
+  polled : Bool := false           -- mode 5: the current call has polled its future once
   gen : Nat := 0                   -- which `block_on` call of this future is the current one
   slotGen : Nat := 0               -- the call whose waker is registered
 deriving DecidableEq, Repr, Inhabited, Hashable
@@ -500,8 +501,14 @@ def step (p : Prog) (s : St) (t : Nat) : List St :=
       | 0 =>
         -- a new call: its own notification flag and spurious budget, a new waker
         [(setF s fun u => { u with wakers := u.wakers + 1, gen := u.gen + 1, notified := false,
-                                   spurUsed := false, rel := VV.zero }).modTh t fun h => { h with phase := 1 }]
+                                   spurUsed := false, rel := VV.zero, polled := false }).modTh t fun h => { h with phase := 1 }]
       | 1 =>
+        if mode == 5 then
+          -- a `yield_now`-shaped future: the first poll wakes itself and is Pending, every later poll is Ready
+          if u.polled then [s.modTh t fun h => { h with phase := 5 }]
+          else [(setF s fun u => { u with polled := true, notified := true, rel := u.rel.join (s.vc t) }).modTh t
+                  fun h => { h with phase := 4 }]
+        else
         let (s, ready) := readFlag s
         [s.modTh t fun h => { h with phase := if ready then 5 else 2 }]
       | 2 =>
@@ -522,7 +529,7 @@ def step (p : Prog) (s : St) (t : Nat) : List St :=
       | _ =>
         -- ready: `block_on` returns; its own reference is dropped, and (unless mode 3 leaves the registration
         -- in the shared `AtomicWaker`) a still registered clone too
-        let s := if mode == 3 || mode == 4 then setF s fun u => { u with wakers := u.wakers - 1 }
+        let s := if mode == 3 || mode == 4 || mode == 5 then setF s fun u => { u with wakers := u.wakers - 1 }
           else setF s fun u => { u with slot := false, wakers := u.wakers - 1 - (if u.slot then 1 else 0) }
         [(s.modTh t fun h => { h with phase := 0 }).ret t (.val 7)]
     | .wake f | .awWake f =>
